@@ -47,6 +47,10 @@ type Ctx struct {
 	structs map[string]*structInfo
 	// symbols that were introduced as assumptions (recorded for evidence)
 	Assumptions map[string]bool
+	NoLet       int // >0 while terms may contain bound variables: no top-level definitions
+}
+
+type ctxPad struct {
 }
 
 func NewCtx(m Mode) *Ctx {
@@ -119,7 +123,7 @@ func (c *Ctx) Define(name, sort, body string) string {
 
 // Let gives a term a short name when it is large, to keep sharing.
 func (c *Ctx) Let(stem, sort, body string) string {
-	if len(body) < 48 {
+	if len(body) < 48 || c.NoLet > 0 {
 		return body
 	}
 	return c.Define(c.Fresh(stem), sort, body)
